@@ -1013,7 +1013,11 @@ func (fc *FnCtx) evalFuncValueCall(st *State, call *ast.CallExpr, preArgs []Val)
 		if p := fc.ctPkg(); p != nil && p.cf != nil {
 			rk := fc.root().key
 			_ = rk
-			if c, ok := p.cf.Contracts[key]; ok {
+			c, ok := p.cf.Contracts[key+"@"+strings.TrimPrefix(fc.root().key, p.Types.Name()+".")]
+			if !ok {
+				c, ok = p.cf.Contracts[key]
+			}
+			if ok {
 				sig, _ := fv.Ty.Underlying().(*types.Signature)
 				args := preArgs
 				if sig != nil && args == nil {
@@ -1852,6 +1856,9 @@ func (fc *FnCtx) callMods(call *ast.CallExpr, ms *modSet, depth int) {
 			_ = lit // body is visited by ast.Inspect
 			return
 		}
+		if fc.pureFuncValue(call) {
+			return
+		}
 		// closure variable: its body is visited where it is defined if within n; otherwise unknown
 		if id, ok := fun.(*ast.Ident); ok {
 			if _, isVar := fc.info.Uses[id].(*types.Var); isVar {
@@ -2108,7 +2115,7 @@ func (fc *FnCtx) checkCallPre(st *State, call *ast.CallExpr, f *types.Func, recv
 	})
 	sig := f.Type().(*types.Signature)
 	scope := map[string]Val{}
-	if recv != nil && sig.Recv() != nil && sig.Recv().Name() != "" {
+	if recv != nil {
 		scope["$recv"] = *recv
 	}
 	for i := 0; i < sig.Params().Len() && i < len(args); i++ {
